@@ -113,9 +113,9 @@ CLAIMS = {
 TRANSL = {
  "C01": "basic.Compute itself (validation, option resolution and defaults, transpose, the loop with its check schedule and stop rule, result assignment; MulVec as a hand-modelled extern), the convergence checker and Vector.Norm2 (translated with math.Sqrt/IsNaN/IsInf as uninterpreted parameters; Compute translated together with them refines the model under the stated hypotheses about sqrt on sums of squares, Props/TrSrc, Props/TrChk) and the kernels one iteration is made of (AddVec/ScaleVec/VecDot/KBNSummer)",
  "C02": "basic.Compute itself, the canonicalisers that establish its hypotheses (Canonicalize, CanonicalizeTrustVector, CanonicalizeLocalTrust) and the kernels one iteration is made of (AddVec/ScaleVec/VecDot/KBNSummer)",
- "C04": "basic.Canonicalize, CanonicalizeTrustVector and CanonicalizeLocalTrust",
+ "C04": "basic.Canonicalize, CanonicalizeTrustVector and CanonicalizeLocalTrust (incl. idempotence over two successive calls, Props/TrGo04c)",
  "C05": "basic.Compute itself (schedule resolution: checkFreq default 1, minIterations default checkFreq, maxIterations 0 = unlimited; the loop), the convergence checker (Props/TrChk) and the nine option constructors of computeopts.go (each sets only its own field)",
- "C08": "basic.ExtractDistrust and DiscountTrustVector",
+ "C08": "basic.ExtractDistrust and DiscountTrustVector (incl. the two-call pipeline on the returned matrix, Props/TrGo08c)",
  "C09": "KBNSummer.Add/Sum, Vector.Sum/AddVec/SubVec/scaleInPlace/ScaleVec/Assign/Clone/Reset/SetDim and VecDot (incl. algebraic laws over call sequences, Props/TrGo09c)",
  "C10": "CSMatrix.Dim/NNZ/SetMinorDim/Transpose, NewCSRMatrix, RowVector/SetRowVector",
  "C11": "mergeSpan and Vector.Merge (incl. the overlay property and every update history of Vector.Merge stated on the translated code, Props/TrGo11)",
